@@ -211,6 +211,66 @@ def run(repo, res):
                   'the starter must clear prepare_thread in a finally (otherwise a failed launch '
                   'blocks every later prepare())', nontrivial=False)
 
+    # ---- R2 publication order: the starter publishes its results without the lock ---------------------------------------
+    # It writes the connection first and clears its own handle last (in a finally).  A caller that decides from both fields
+    # must therefore read them in the opposite order - handle first, connection second; read the other way round, a starter
+    # finishing between the two reads leaves "no connection" and "no starter" both true, and a second server is launched.
+    def writes_in_order(mname, seen=None):
+        seen = seen or set()
+        if mname in seen or mname not in methods:
+            return []
+        seen.add(mname)
+        events = []
+        for n in ast.walk(methods[mname]):
+            if isinstance(n, ast.Attribute) and isinstance(n.value, ast.Name) and n.value.id == 'self' and isinstance(n.ctx, ast.Store):
+                events.append(((n.lineno, n.col_offset), 'w', n.attr))
+            if isinstance(n, ast.Call) and unparse(n.func).startswith('self.') and unparse(n.func)[5:] in methods:
+                events.append(((n.lineno, n.col_offset), 'c', unparse(n.func)[5:]))
+        out = []
+        fin = set()
+        for t in ast.walk(methods[mname]):
+            if isinstance(t, ast.Try):
+                for st in t.finalbody:
+                    for x in ast.walk(st):
+                        fin.add(id(x))
+        body_events = sorted(e for e in events)
+        # statements of a finally block run after the try body whatever their position
+        late = [e for e in body_events if any(id(n) in fin for n in ast.walk(methods[mname])
+                                              if getattr(n, 'lineno', None) == e[0][0] and getattr(n, 'col_offset', None) == e[0][1])]
+        early = [e for e in body_events if e not in late]
+        for _pos, kind, name in early + late:
+            if kind == 'w':
+                out.append(name)
+            else:
+                out.extend(writes_in_order(name, seen))
+        return out
+    npub = 0
+    for t in sorted(starter_targets):
+        order = []
+        for a in writes_in_order(t):
+            if a not in order:
+                order.append(a)
+        for i, first in enumerate(order):
+            for later in order[i + 1:]:
+                for mname, m in methods.items():
+                    if mname in starter_targets or mname == '__init__':
+                        continue
+                    reads = {}
+                    for attr, kind, node in self_attr_accesses(m):
+                        if kind == 'r' and attr in (first, later):
+                            pos = (node.lineno, node.col_offset)
+                            if attr not in reads or pos < reads[attr]:
+                                reads[attr] = pos
+                    if len(reads) < 2:
+                        continue
+                    npub += 1
+                    res.check('C16-R2', '%s reads %s before %s' % (mname, later, first), reads[later] < reads[first], REMOTE, m.lineno,
+                              'the starter (%s) publishes %s before %s, without the lock; %s tests %s first and %s second: a starter that '
+                              'finishes between the two tests leaves both "absent", and the caller launches a second server'
+                              % (t, first, later, mname, first, later),
+                              sample='%s: %s (written last) is read before %s (written first)' % (mname, later, first))
+    res.count('publication_order_checks', npub, floor=2)
+
     # ---- R4 call arity (repository wide) ---------------------------------
     n_calls, n_resolved = check_arity(repo, res, facts)
     res.count('calls_resolved', n_resolved, floor=150)
